@@ -129,7 +129,22 @@ def entropy_stream(data):
             self.log.append((nbytes, out))
             self.pos += nbytes
             return out
+    _VARIANT["i"] += 1
+    v = _VARIANT["i"] % 3
+    if v == 1:
+        class LenStream(Stream):            # len() = bytes handed out so far: falsy while fresh, still a legal callable
+            def __len__(self):
+                return self.pos
+        return LenStream(data)
+    if v == 2:
+        class FalsyStream(Stream):
+            def __bool__(self):
+                return False
+        return FalsyStream(data)
     return Stream(data)
+
+
+_VARIANT = {"i": 0}
 
 
 class StreamExhausted(Exception):
